@@ -1,6 +1,6 @@
 """C13 - the triple store behaves as a set (store clauses only; DESIGN §5 C13)."""
 from .facts import short_id, CheckerError
-from .flow import FlowCx, callee_name
+from .flow import FlowCx, callee_name, bool_cases
 from . import common
 
 EXPLANATION = (
@@ -201,22 +201,16 @@ def _matches_table(ctx, P):
                 return {"whole"}
             return cs
         bad = []
-        for v, facts, bi, ln in return_table(P, g):
+        cases = bool_cases(FlowCx(P, g), ["m", [0]], False)
+        if cases is None:
+            bad.append("the predicate's result is not built from comparisons, constants and negations")
+        for facts in cases or []:
             eq = set()
             for x in facts:
                 if x[0] == "cmp" and x[1] == "Eq":
                     eq |= comps_of(x[2], x[3])
-            if v[0] == "const" and v[1] in ("1", "true"):
-                continue
-            if v[0] == "cmp" and v[1] == "Ne":
-                eq |= comps_of(v[2], v[3])
-            elif v[0] == "cmp" and v[1] == "Eq":
-                pass     # `a == b` returned: false means they differ, nothing more is known
-            elif not (v[0] == "const" and v[1] in ("0", "false")):
-                bad.append("line %s: result %s is not a comparison the rule understands" % (ln, v[0]))
-                continue
             if "whole" not in eq and len(eq) < 2:
-                bad.append("line %s: an entry is dropped when only %s equals the removed triple's" % (ln, sorted(eq) or "nothing"))
+                bad.append("an entry is dropped when only %s equals the removed triple's" % (sorted(eq) or "nothing"))
         ctx.ob("R7", "RdfStore::remove#retain[%s]" % g.id.split("{closure#")[-1].rstrip("}"), not bad,
                what="index maintenance in RdfStore::remove drops entries that are not the removed triple (%s): lookups through "
                     "that index lose triples that are still in the set" % "; ".join(bad), where=g.loc())
